@@ -217,3 +217,9 @@ impl TryFrom<&ServerConfig<SslConfig>> for ServerAeadCodec {
         Ok(Self { keys, decode_state: DecodeState::Init, encode_state: EncodeState::Init })
     }
 }
+
+#[cfg(feature = "verif-hooks")]
+pub mod verif {
+    pub use super::ServerAeadCodec;
+    pub use super::new_codec;
+}
